@@ -4,7 +4,7 @@ import itertools
 
 from bare_script.runtime import execute_script, BareScriptRuntimeError
 from vf.hlib.refvm import RefVM
-from vf.hlib.util import untraced, LIB_NAMES
+from vf.hlib.util import untraced, LIB_NAMES, norm_error
 
 LIMIT = 24
 
@@ -111,7 +111,7 @@ def run_real(model, bits, limit=LIMIT, pv=None):
     try:
         r = ('ok', execute_script(model, opts))
     except BareScriptRuntimeError as e:
-        r = ('err', str(e))
+        r = ('err', norm_error(e))
     with untraced():
         names = [n for n in g if n not in LIB_NAMES and n not in ('cc', 'tt', 'pv')]
     final = [(n, g[n]) for n in sorted(names) if not callable(g[n])]
@@ -135,7 +135,7 @@ def run_ref(model, bits, limit=LIMIT, pv=None):
     try:
         r = ('ok', vm.run(model))
     except BareScriptRuntimeError as e:
-        r = ('err', str(e))
+        r = ('err', norm_error(e))
     with untraced():
         names = [n for n in vm.g if n not in LIB_NAMES and n not in ('cc', 'tt', 'pv')]
     final = [(n, vm.g[n]) for n in sorted(names) if not callable(vm.g[n])]
